@@ -199,7 +199,9 @@ rejected by `Convert` before) -/
 def rangeInts (a b : Int) : List GoVal :=
   (List.range (b + 1 - a).toNat).map fun (i : Nat) => GoVal.int .int (a + (i : Int))
 
-def convert (v0 : GoVal) (t : ParamTy) : Res Cause GoVal :=
+/-- `values.Convert(v0, t)`. `budget` is NOT part of the semantics: the largest `b - a` for which the executable
+    model builds the array of the range `(a..b)` (the code's own limit is `maxRangeArrayLen`, the line above the test) -/
+def convert (v0 : GoVal) (t : ParamTy) (budget : Int := 1000000) : Res Cause GoVal :=
   let v := v0.toLiquid
   match t with
   | .any => convAny v0
@@ -235,7 +237,9 @@ def convert (v0 : GoVal) (t : ParamTy) : Res Cause GoVal :=
     | .mapSlice kvs => .ok (.slice .any (convElems (kvs.map (·.2))))
     | .range a b =>
       if b - a + 1 > 10000000 then .err .typeErr          -- maxRangeArrayLen: "range too large to convert to an array"
-      else if b - a > 1000000 then .unmodelled "range of more than a million items"
+      -- `budget` has no counterpart in the code: it keeps the executable model from building a huge list (the
+      -- driver runs with the default); the theorems hold for every budget (`Proofs/Budget.lean`)
+      else if b - a > budget then .unmodelled "range of more than a million items"
       else .ok (.slice .any (rangeInts a b))
     | .slice _ xs => .ok (.slice .any (convElems xs))     -- `[]any` without a drop: by reference, and `convElems xs = xs`
     | .array _ xs => .ok (.slice .any (convElems xs))
